@@ -60,6 +60,8 @@ type call struct {
 type caseT struct {
 	Script   []call `json:"script"`
 	Children []int  `json:"children,omitempty"` // indices into childPool
+	// Concurrent, when set, makes this a case of TestConcurrentClocks (Script is unused)
+	Concurrent *concCase `json:"concurrent,omitempty"`
 	// filled in when a violation is written out; ignored by replay
 	Observed []string `json:"observed,omitempty"`
 }
@@ -896,6 +898,238 @@ func runChildren(sc []call, children []int, ref []string) (v *violation, err err
 	return nil, nil
 }
 
+// ---- concurrent readers of the default clocks on one instance ----
+
+// concCase: G goroutines call into ONE default-configured instance at the same time, each
+// through its own api.Function objects, repeating its pattern of operations K times.
+// Operations: "realtime"/"monotonic" clock_time_get, "res" clock_res_get, "hidden-wall"
+// path_filestat_set_times(fd 0, ATIM_NOW|MTIM_NOW) (reads the wall clock without returning
+// it), "poll" poll_oneoff with a one-hour clock subscription, "yield" sched_yield.
+type concCase struct {
+	K        int        `json:"k"`
+	Patterns [][]string `json:"patterns"` // one per goroutine
+}
+
+var concOps = []string{"realtime", "realtime", "realtime", "monotonic", "monotonic", "monotonic", "res", "hidden-wall", "poll", "yield"}
+
+type concResult struct {
+	wall, mono           []uint64 // values returned by clock_time_get
+	finalWall, finalMono uint64   // one more reading of each clock after all operations
+	errs                 []string
+}
+
+const (
+	cPath = 512  // "."
+	cRes  = 1024 // + g*64: results of goroutine g
+	cSubs = 4096 // + g*64: subscription of goroutine g
+	cOut  = 8192 // + g*64: events of goroutine g
+)
+
+// runConc executes the patterns on p, concurrently or one goroutine after the other.
+func runConc(p *wasiproxy.Proxy, cc concCase, concurrent bool) concResult {
+	ctx := context.Background()
+	var res concResult
+	mem := p.Mem
+	mem.Write(cPath, []byte("."))
+	type gres struct {
+		wall, mono []uint64
+		errs       []string
+	}
+	out := make([]gres, len(cc.Patterns))
+	work := func(g int) {
+		r := &out[g]
+		fns := map[string]func(args ...uint64) (uint32, error){}
+		fn := func(name string) func(args ...uint64) (uint32, error) {
+			if f := fns[name]; f != nil {
+				return f
+			}
+			af := p.Mod.ExportedFunction(name) // this goroutine's own function object
+			f := func(args ...uint64) (uint32, error) {
+				rs, err := af.Call(ctx, args...)
+				if err != nil || len(rs) == 0 {
+					return 0, err
+				}
+				return uint32(rs[0]), nil
+			}
+			fns[name] = f
+			return f
+		}
+		off := uint64(cRes + g*64)
+		mem.Write(uint32(cSubs+g*64), subscription(uint64(g), 0, 0, hourNs, 0, 0))
+		fail := func(op string, e uint32, err error) {
+			if len(r.errs) < 3 {
+				r.errs = append(r.errs, fmt.Sprintf("goroutine %d %s: errno=%d err=%v", g, op, e, err))
+			}
+		}
+		for k := 0; k < cc.K; k++ {
+			for _, op := range cc.Patterns[g] {
+				switch op {
+				case "realtime", "monotonic":
+					id, o := uint64(0), off
+					if op == "monotonic" {
+						id, o = 1, off+8
+					}
+					if e, err := fn("clock_time_get")(id, 0, o); err != nil || e != 0 {
+						fail(op, e, err)
+					} else if v, ok := mem.ReadUint64Le(uint32(o)); ok {
+						if id == 0 {
+							r.wall = append(r.wall, v)
+						} else {
+							r.mono = append(r.mono, v)
+						}
+					}
+				case "res":
+					if e, err := fn("clock_res_get")(uint64(g%2), off+16); err != nil || e != 0 {
+						fail(op, e, err)
+					}
+				case "hidden-wall":
+					if _, err := fn("path_filestat_set_times")(0, 0, cPath, 1, 0, 0, 2|8); err != nil {
+						fail(op, 0, err)
+					}
+				case "poll":
+					if e, err := fn("poll_oneoff")(uint64(cSubs+g*64), uint64(cOut+g*64), 1, off+24); err != nil || e != 0 {
+						fail(op, e, err)
+					}
+				case "yield":
+					if e, err := fn("sched_yield")(); err != nil || e != 0 {
+						fail(op, e, err)
+					}
+				}
+			}
+		}
+	}
+	if concurrent {
+		var wg sync.WaitGroup
+		start := make(chan struct{})
+		for g := range cc.Patterns {
+			wg.Add(1)
+			go func(g int) {
+				defer wg.Done()
+				<-start
+				work(g)
+			}(g)
+		}
+		close(start)
+		wg.Wait()
+	} else {
+		for g := range cc.Patterns {
+			work(g)
+		}
+	}
+	for _, r := range out {
+		res.wall = append(res.wall, r.wall...)
+		res.mono = append(res.mono, r.mono...)
+		res.errs = append(res.errs, r.errs...)
+	}
+	if e, o := p.Call(ctx, "clock_time_get", 0, 0, cRes); e != 0 || o.Kind != wz.KOK {
+		res.errs = append(res.errs, fmt.Sprintf("final realtime reading: errno=%d %v", e, o))
+	}
+	res.finalWall, _ = mem.ReadUint64Le(cRes)
+	if e, o := p.Call(ctx, "clock_time_get", 1, 0, cRes); e != 0 || o.Kind != wz.KOK {
+		res.errs = append(res.errs, fmt.Sprintf("final monotonic reading: errno=%d %v", e, o))
+	}
+	res.finalMono, _ = mem.ReadUint64Le(cRes)
+	return res
+}
+
+// checkTicks: every returned value is a distinct tick base+i*step below the final reading.
+func checkTicks(name string, vals []uint64, base, step, final uint64, hidden bool) string {
+	seen := make(map[uint64]int, len(vals))
+	dup, bad := 0, 0
+	var ex string
+	for _, v := range vals {
+		seen[v]++
+		if seen[v] == 2 {
+			dup++
+			if ex == "" {
+				ex = fmt.Sprintf("value %d returned more than once", v)
+			}
+		}
+		if v < base || v >= final || (step > 0 && (v-base)%step != 0) {
+			bad++
+			if ex == "" {
+				ex = fmt.Sprintf("value %d is not base+i*step below the final reading (base %d step %d final %d)", v, base, step, final)
+			}
+		}
+	}
+	if dup > 0 || bad > 0 {
+		return fmt.Sprintf("%s clock: %d readings, %d handed out more than once, %d off the tick sequence (%s)", name, len(vals), dup, bad, ex)
+	}
+	if !hidden && step > 0 && uint64(len(vals)) != (final-base)/step {
+		return fmt.Sprintf("%s clock: %d readings but the clock advanced by %d ticks", name, len(vals), (final-base)/step)
+	}
+	return ""
+}
+
+// runConcurrentCase: on both engines, the concurrent run must leave both clocks exactly where
+// the same operations executed one after the other leave them, and every reading must be a
+// distinct tick of the sequence a fresh instance starts.
+func runConcurrentCase(cc concCase) (*violation, error) {
+	ctx := context.Background()
+	hidden := false
+	for _, pt := range cc.Patterns {
+		for _, op := range pt {
+			if op == "hidden-wall" {
+				hidden = true
+			}
+		}
+	}
+	var finals []string
+	for _, eng := range wz.Engines {
+		rt := wazero.NewRuntimeWithConfig(ctx, wz.Config(eng))
+		defer rt.Close(ctx)
+		var ps [3]*wasiproxy.Proxy
+		for i := range ps {
+			p, err := wasiproxy.New(ctx, rt, nil, 1, 1)
+			if err != nil {
+				return nil, err
+			}
+			ps[i] = p
+		}
+		// instance 0: base and step of both clocks
+		b := runConc(ps[0], concCase{K: 1, Patterns: [][]string{{"realtime", "realtime", "monotonic", "monotonic"}}}, false)
+		if len(b.errs) > 0 || len(b.wall) != 2 || len(b.mono) != 2 {
+			return nil, fmt.Errorf("reading the clocks failed: %v", b.errs)
+		}
+		baseW, stepW, baseM, stepM := b.wall[0], b.wall[1]-b.wall[0], b.mono[0], b.mono[1]-b.mono[0]
+		seq := runConc(ps[1], cc, false)
+		con := runConc(ps[2], cc, true)
+		if len(seq.errs) > 0 {
+			return &violation{fmt.Sprintf("%s: sequential run: calls failed: %s", eng, strings.Join(seq.errs, "; ")), ""}, nil
+		}
+		if len(con.errs) > 0 {
+			return &violation{fmt.Sprintf("%s: concurrent run: calls failed", eng), strings.Join(con.errs, "\n")}, nil
+		}
+		detail := fmt.Sprintf("%s: realtime base %d step %d, final sequential %d concurrent %d (%d readings); monotonic base %d step %d, final sequential %d concurrent %d (%d readings)",
+			eng, baseW, stepW, seq.finalWall, con.finalWall, len(con.wall), baseM, stepM, seq.finalMono, con.finalMono, len(con.mono))
+		for _, m := range []string{
+			checkTicks("sequential realtime", seq.wall, baseW, stepW, seq.finalWall, hidden),
+			checkTicks("sequential monotonic", seq.mono, baseM, stepM, seq.finalMono, false),
+		} {
+			if m != "" {
+				return &violation{eng + ": " + m, detail}, nil
+			}
+		}
+		if con.finalWall != seq.finalWall || con.finalMono != seq.finalMono {
+			return &violation{fmt.Sprintf("%s: after %d goroutines made their calls concurrently on one default-config instance the clocks are not where the same calls made one after the other leave them (ticks lost or duplicated): realtime off by %d ns, monotonic off by %d ns",
+				eng, len(cc.Patterns), int64(seq.finalWall-con.finalWall), int64(seq.finalMono-con.finalMono)), detail}, nil
+		}
+		for _, m := range []string{
+			checkTicks("concurrent realtime", con.wall, baseW, stepW, con.finalWall, hidden),
+			checkTicks("concurrent monotonic", con.mono, baseM, stepM, con.finalMono, false),
+		} {
+			if m != "" {
+				return &violation{eng + ": " + m, detail}, nil
+			}
+		}
+		finals = append(finals, fmt.Sprintf("%d/%d", con.finalWall, con.finalMono))
+	}
+	if len(finals) == 2 && finals[0] != finals[1] {
+		return &violation{"final clock readings differ between the engines", strings.Join(finals, " vs ")}, nil
+	}
+	return nil, nil
+}
+
 // ---- the checks ----
 
 func caseKey(c caseT) uint64 {
@@ -910,6 +1144,9 @@ var (
 
 // runCase is shared by the properties and by TestReplay.
 func runCase(c caseT) (v *violation, err error) {
+	if c.Concurrent != nil {
+		return runConcurrentCase(*c.Concurrent)
+	}
 	parentMarkersOnce.Do(func() { parentMarkers = hostMarkers() })
 	ref, v, err := runLocal(c.Script, parentMarkers)
 	if err != nil || v != nil {
@@ -991,6 +1228,52 @@ func TestInProcess(t *testing.T) {
 	})
 }
 
+// TestConcurrentClocks also runs under the race detector (check.json race_run).
+func TestConcurrentClocks(t *testing.T) {
+	if evid.ReplayPath() != "" || os.Getenv("C18_CHILD") != "" {
+		t.Skip()
+	}
+	race := os.Getenv("VERIF_RACE") != ""
+	n := evid.Scale(160, 6400)
+	ks := []int{50, 500, 2000, 20000}
+	if race { // the race detector slows calls down ~10x; its job is the report, not the oracle
+		n = (n + 3) / 4
+		ks = []int{20, 200, 1000}
+	}
+	evid.Check(t, "concurrent-clocks", n, func(t *rapid.T) {
+		cc := concCase{K: rapid.SampledFrom(ks).Draw(t, "k")}
+		g := rapid.IntRange(2, 8).Draw(t, "goroutines")
+		for i := 0; i < g; i++ {
+			cc.Patterns = append(cc.Patterns, rapid.SliceOfN(rapid.SampledFrom(concOps), 1, 4).Draw(t, "pattern"))
+		}
+		c := caseT{Concurrent: &cc}
+		v, err := runCase(c)
+		if err != nil {
+			t.Fatalf("harness: %v", err)
+		}
+		if v != nil {
+			evid.Fail(t, c.withObserved(v), "%s", v.msg)
+		}
+		nops, ticking := 0, 0
+		for _, pt := range cc.Patterns {
+			for _, op := range pt {
+				nops += cc.K
+				if op == "realtime" || op == "monotonic" || op == "hidden-wall" {
+					ticking += cc.K
+				}
+			}
+		}
+		lbls := []string{"concurrent-case", fmt.Sprintf("concurrent-goroutines-%d", g)}
+		if race {
+			lbls = append(lbls, "concurrent-case-under-race-detector")
+		}
+		// non-trivial: at least two goroutines read a ticking clock at least 500 times each in total
+		evid.Case(caseKey(c), ticking >= 1000, lbls...)
+		evid.Label("concurrent-calls", int64(2*2*nops))
+		evid.Sample("concurrent-clocks", 1, c)
+	})
+}
+
 func TestReplay(t *testing.T) {
 	p := evid.ReplayPath()
 	if p == "" || os.Getenv("C18_CHILD") != "" {
@@ -1001,7 +1284,15 @@ func TestReplay(t *testing.T) {
 		t.Fatal(err)
 	}
 	c.Observed = nil
-	v, err := runCase(c)
+	rounds := 1
+	if c.Concurrent != nil {
+		rounds = 20 // scheduling dependent: give the interleaving several chances
+	}
+	var v *violation
+	var err error
+	for r := 0; r < rounds && v == nil && err == nil; r++ {
+		v, err = runCase(c)
+	}
 	if err != nil {
 		t.Fatalf("harness: %v", err)
 	}
